@@ -17,7 +17,8 @@ core.register("C14", "Props.C14", "theories/Props/C14.vo",
                "C14_flushed_dominates_acked", "C14_reopen_nonvacuous", "C14_quiescent_from", "C14_drain_terminates_from"])
 core.register("C03", "Props.C03", "theories/Props/C03.vo", ["C03_prefix", "C03_nonvacuous", "C03_nonvacuous_purged"])
 core.register("C05", "Props.C05", "theories/Props/C05.vo",
-              ["C05_refuted_gap", "C05_recovers_outside_known", "C05_process_crash_is_image"])
+              ["C05_refuted_gap", "C05_recovers_outside_known", "C05_process_crash_is_image",
+               "C05_recovers_outside_known_from", "C05_open_dir_whole", "C05_from_nonvacuous"])
 core.register("C07", "Props.C07", "theories/Props/C07.vo",
               ["C07_refuted_live", "C07_reads_total_outside_known", "C07_boundary_in_force_is_not_enough",
                "C07_reads_total_outside_known_L2", "C07_restart_reads_total", "C07_restart_continue", "C07_restart_refuted",
@@ -224,6 +225,14 @@ class LogView:
                 elif k == "opened" and i > 0:
                     self.dropped_at = None
                     self.unlocked_at = None
+                    if any(x == "c drop" for x in self.ev[:i]):
+                        # a new incarnation numbers its callbacks from 0 again; what earlier
+                        # incarnations had acknowledged stays acknowledged
+                        self.incarnation_acks = getattr(self, "incarnation_acks", []) + [(self.next_cb, list(self.acks))]
+                        self.next_cb = 0
+                        self.flush_U, self.flush_nwrites = {}, {}
+                        self.acks = []
+                        self.refused_cbs = set()
                 if t[0] == "w" and self.unlocked_at is not None and k in ("write", "sync", "unlink"):
                     self.problems.append(("C14", "the directory lock was released while the store's worker was still changing the directory: " + e, i))
                     self.unlocked_at = None
@@ -356,6 +365,33 @@ def gen_schedule(rnd, nops, cfg, faults=0, snaps=False, small_cache=False, reads
     return "TRACE %s | %s" % (cfg, " ; ".join(items)), st
 
 
+def second_incarnation_case(rnd, cfg, nops1, nops2, faults=0, snaps=False, autosnap=False):
+    """a history, flushed and acknowledged; the store is dropped and the directory opened again
+    (possibly under other limits); the history goes on in the second incarnation, where the
+    worker is gated, faults are injected and snapshots are taken"""
+    ops, st, sim = gen.gen_history(rnd, nops1 + nops2, p_reject=0.05, reads=False, max_batch=2,
+                                   flush_every=rnd.choice([0.2, 0.4]), index_limit_rejects=False)
+    cut = min(len(ops), nops1)
+    items = list(ops[:cut]) + ["F 1", "wi", "drop"]
+    cfg2 = cfg if rnd.random() < 0.5 else gen.rand_cfg(rnd, big_cache=True, trunc=1)
+    items.append("open " + cfg2)
+    if autosnap:
+        items.append("autosnap")
+    for o in ops[cut:]:
+        items.append(o)
+        if o.startswith("F") or rnd.random() < 0.3:
+            items.append(rnd.choice(["w 1", "w 2", "w 3", "wi"]))
+        if snaps and rnd.random() < 0.4:
+            items.append("snap")
+    for _ in range(faults):
+        pos = rnd.randrange(cut + 4, len(items) + 1)
+        items.insert(pos, "fault %s %d" % (rnd.choice(["sync", "sync", "write", "unlink"]), rnd.randint(0, 2)))
+    items += ["F 1", "wi"]
+    if snaps:
+        items.append("snap")
+    return "TRACE %s | %s" % (cfg, " ; ".join((["autosnap"] if False else []) + items))
+
+
 def failed_rotation_cases(rnd, n, tail):
     """schedules in which the creation of the next chunk file fails on the caller thread (disk
     full) while journalled bytes are pending; `tail` = items appended after the recovery writes"""
@@ -403,6 +439,12 @@ def run_C04(ctx):
             items += ["A 1 %d %s" % (i, gen.hx(bytes((k * 7 + i + j) & 0xFF for k in range(1536 * 1024)))), "F 1"]
         cases.append("TRACE 100000 1073741824 100000 1073741824 1 64 | " + " ; ".join(items + ["wi", "G"]))
         ctx.count("multi_megabyte_batches")
+    # acknowledgements of a store RE-OPENED on an existing directory (second incarnation): its worker
+    # starts with the re-used (or fresh) newest file only; with and without injected failures
+    for j in range(ctx.scale(16, 120)):
+        cfg = gen.rand_cfg(rnd, big_cache=(rnd.random() < 0.5))
+        cases.append(second_incarnation_case(rnd, cfg, rnd.randint(2, 12), rnd.randint(3, 14), faults=(0 if j % 2 else rnd.choice([1, 2]))))
+        ctx.count("second_incarnation_traces")
     cases = p_seq.corpus("C04") + cases
     ff = [("fault " not in c) for c in cases]
     logs, rep = trace_check(ctx, "c04", cases)
@@ -421,6 +463,10 @@ def run_C04(ctx):
         if v is None or not f:
             continue
         got = [cb for cb, ok in v.acks]
+        # (for a trace with a restart: the last incarnation; the earlier ones ended with flush + idle)
+        for ncb, acks0 in getattr(v, "incarnation_acks", []):
+            if [cb for cb, ok in acks0] != list(range(ncb)) and not v.refused_cbs:
+                got = None
         if got != [cb for cb in range(v.next_cb) if cb not in v.refused_cbs] or not all(ok for _, ok in v.acks):
             bad += 1
             ctx.fail("oracle", "C04 oracle: without failures every flush callback must fire exactly once with Ok: requested %d, fired %s" % (v.next_cb, v.acks[:20]),
@@ -595,6 +641,12 @@ def run_crash(ctx, prop):
         cases.append("TRACE 100000 1073741824 %d 1073741824 1 %d | A 1 0 x00 ; A 1 1 x01 ; F 1 ; wi ; A 1 2 %s ; F 1 ; w 1 ; snap ; w 1 ; snap ; wi ; snap"
                      % (rnd.choice([4, 100000]), rnd.choice(gen.CFG_RBUF), gen.hx(bytes((i * 17 + j) & 0xFF for i in range(size)))))
         ctx.count("large_entry_traces")
+    # crashes of the SECOND incarnation: a flushed history, drop, reopen (possibly under other
+    # limits), more history with snapshots (also inside calls)
+    for j in range(ctx.scale(12, 100)):
+        cfg = gen.rand_cfg(rnd, big_cache=True, trunc=1)
+        cases.append(second_incarnation_case(rnd, cfg, rnd.randint(2, 12), rnd.randint(3, 14), snaps=True, autosnap=(j % 2 == 0)))
+        ctx.count("second_incarnation_crash_traces")
     cases = p_seq.corpus(prop) + cases
     cfgs = [c.split("|")[0].replace("TRACE", "").strip() for c in cases]
     logs, rep = trace_check(ctx, prop.lower(), cases)
